@@ -107,10 +107,10 @@ fn serialize_enum(name: Ident, enum_data: DataEnum) -> proc_macro2::TokenStream 
                 .map(|field| {
                     let ty = &field.ty;
                     if let Some(ident) = &field.ident {
-                        quote! { #ident: { let #ident = <#ty as ::agdb::AgdbSerialize>::deserialize(&buffer[__offset as usize..])?; __offset += ::agdb::AgdbSerialize::serialized_size(&#ident); #ident } }
+                        quote! { #ident: { let #ident = <#ty as ::agdb::AgdbSerialize>::deserialize(buffer.get(__offset as usize..).unwrap_or_default())?; __offset += ::agdb::AgdbSerialize::serialized_size(&#ident); #ident } }
                     } else {
                         named = false;
-                        quote! { { let v = <#ty as ::agdb::AgdbSerialize>::deserialize(&buffer[__offset as usize..])?; __offset += ::agdb::AgdbSerialize::serialized_size(&v); v } }
+                        quote! { { let v = <#ty as ::agdb::AgdbSerialize>::deserialize(buffer.get(__offset as usize..).unwrap_or_default())?; __offset += ::agdb::AgdbSerialize::serialized_size(&v); v } }
                     }
                 })
                 .collect::<Vec<_>>();
@@ -189,7 +189,7 @@ fn serialize_tuple(
     let deserializers = fields_types.iter().enumerate().map(|(index, (_name, ty))| {
         let name = format_ident!("__{}", index);
         quote! {
-            let #name = <#ty as ::agdb::AgdbSerialize>::deserialize(&buffer[__offset as usize..])?;
+            let #name = <#ty as ::agdb::AgdbSerialize>::deserialize(buffer.get(__offset as usize..).unwrap_or_default())?;
             __offset += ::agdb::AgdbSerialize::serialized_size(&#name);
         }
     });
@@ -249,7 +249,7 @@ fn serialize_struct(
     let deserializers = fields_types.iter().map(|(name, ty)| {
         let name = name.unwrap();
         quote! {
-            let #name = <#ty as ::agdb::AgdbSerialize>::deserialize(&buffer[__offset as usize..])?;
+            let #name = <#ty as ::agdb::AgdbSerialize>::deserialize(buffer.get(__offset as usize..).unwrap_or_default())?;
             __offset += ::agdb::AgdbSerialize::serialized_size(&#name);
         }
     });
